@@ -37,11 +37,19 @@ pub enum RVal {
     Table(RTable),
 }
 
-#[derive(Clone, Debug, PartialEq, Default)]
+#[derive(Clone, Debug, Default)]
 pub struct RTable {
     pub entries: Vec<(String, RVal)>,
     /// alternative admissible key order (see DESIGN.md C02: super-table after sub-table)
     pub alt: Option<Vec<String>>,
+    /// spelled only through dotted keys inside an inline table (informational: never compared)
+    pub dotted: bool,
+}
+
+impl PartialEq for RTable {
+    fn eq(&self, o: &Self) -> bool {
+        self.entries == o.entries
+    }
 }
 
 impl RTable {
@@ -100,7 +108,7 @@ impl RVal {
         }
     }
     pub fn table(entries: Vec<(String, RVal)>) -> RVal {
-        RVal::Table(RTable { entries, alt: None })
+        RVal::Table(RTable { entries, alt: None, dotted: false })
     }
     pub fn as_table(&self) -> Option<&RTable> {
         match self {
@@ -157,7 +165,7 @@ impl RVal {
             RVal::Table(t) => {
                 let mut e: Vec<(String, RVal)> = t.entries.iter().map(|(k, v)| (k.clone(), v.sorted())).collect();
                 e.sort_by(|a, b| a.0.cmp(&b.0));
-                RVal::Table(RTable { entries: e, alt: None })
+                RVal::Table(RTable { entries: e, alt: None, dotted: false })
             }
             v => v.clone(),
         }
